@@ -117,7 +117,12 @@ def driver(prog, S):
         body.append("          std::vector<unsigned char> old(src, src + BLEN[i]);")
         body.append("          auto sv = %sstatic_cast<const unsigned char *>(src), (size_t)BLEN[i]); auto dv = %sdst, (size_t)BLEN[i]); ++g_calls;" % (mk, mk))
         body.append("          bool r = dv.TryToCopyFrom(sv); if (!r) cv(\"overlap-copy-failed\", %d, i, k); else if (std::memcmp(dst, old.data(), n) != 0) cv(\"overlap-not-memmove\", %d, i, k);" % (pi, pi))
-        body.append("          std::free(arena); } }")
+        body.append("          std::free(arena); }")
+        body.append("        // destination window over the same storage but shorter than the source's size: must fail and change nothing")
+        body.append("        for (size_t d = 0; d < n; ++d) { unsigned char *cp = (unsigned char *)std::malloc(BLEN[i] ? BLEN[i] : 1); std::memcpy(cp, ptr[i], BLEN[i]);")
+        body.append("          auto sv = %sstatic_cast<const unsigned char *>(cp), (size_t)BLEN[i]); auto dv = %scp, d); ++g_calls;" % (mk, mk))
+        body.append("          if (dv.TryToCopyFrom(sv)) cv(\"copied-into-too-small-window-at-same-address\", %d, i, (int)d);" % pi)
+        body.append("          else if (std::memcmp(cp, ptr[i], BLEN[i]) != 0) cv(\"failed-copy-changed-dest\", %d, i, (int)d); std::free(cp); } }" % pi)
         body.append("    }")
         body.append("    for (int i = 0; i < NBUF; ++i) std::free(ptr[i]);")
         body.append("  }")
